@@ -410,7 +410,7 @@ def apply_as(kind, n, steps):
 def instances(tier, seed):
     q = tier == 'quick'
     out = []
-    for G, n, win in ((2, 2, 2), (3, 2, 2), (3, 3, 2), (3, 3, 3)) if q else ((2, 2, 2), (3, 2, 2), (3, 3, 2), (3, 3, 3), (4, 2, 3), (4, 3, 2), (3, 3, 1)):
+    for G, n, win in ((2, 2, 2), (3, 2, 2), (3, 3, 2), (3, 3, 3), (3, 2, 4), (2, 2, 3)) if q else ((2, 2, 2), (3, 2, 2), (3, 3, 2), (3, 3, 3), (4, 2, 3), (4, 3, 2), (3, 3, 1), (3, 2, 4), (3, 2, 5), (2, 2, 3), (3, 2, 6), (4, 2, 7)):      # (windows longer than the history: the whole history counts)
         for tk in ('none', 'scalar', 'list'):
             for mask in (None, (0,), (1, 2)):
                 if mask and max(mask) >= n:
